@@ -4,7 +4,9 @@ from rlsim import optimsim
 PROPERTY = "C16"
 LEVEL = "exploration"
 ENGINE = "OptimSim"
-RULE = ("Seeded plans; the fitness source is scripted by the plan. CMA-ES plans (55%): CMAESConfig.create / CMAESState.create / sample_population / "
+RULE = ("Seeded plans; the fitness source is scripted by the plan. 1 plan in 20: train_cmaes itself on a scripted gymnasium environment (episode lengths, "
+        "rewards incl. non-finite ones from the plan; the environment records the policy parameters of every episode): returned best fitness, stop/episode "
+        "accounting and the returned policy (= mean of the last update) recomputed from the recorded candidates. Of the rest, CMA-ES plans (55%): CMAESConfig.create / CMAESState.create / sample_population / "
         "get_next_parameters / set_evaluation_feedback / is_cmaes_finished / update_search_distribution in the order train_cmaes uses them, 3-15 generations, "
         "dimension 1-8 (by plan index), population default/4/9, active and default update, maximise and minimise, initial variance 1e-12..1e6, "
         "none/diagonal/full initial covariance, optional box bounds, train_cmaes' stop rules obeyed or ignored; feedback styles distinct / ties / huge (1e12) / "
@@ -17,9 +19,9 @@ RULE = ("Seeded plans; the fitness source is scripted by the plan. CMA-ES plans 
         "population 2-32, elites 1..population (and > population: must be rejected), alpha 0..1, same fitness styles and faults. "
         "Distinct = distinct (kind, dimension, population[/elite], update variant, covariance/box/variance style, feedback style, length, #updates, stop, fault kinds).")
 REAL = ["algorithm.cmaes.CMAESConfig.create", "CMAESState.create", "Population", "sample_population", "get_next_parameters", "set_evaluation_feedback",
-        "is_cmaes_finished", "update_search_distribution", "flat_params", "set_params", "blox.function_approximator.mlp.MLP", "policy_head.DeterministicTanhPolicy",
+        "is_cmaes_finished", "update_search_distribution", "train_cmaes", "flat_params", "set_params", "blox.function_approximator.mlp.MLP", "policy_head.DeterministicTanhPolicy",
         "blox.cross_entropy_method.cem_sample", "cem_update", "optimize_cem", "jax PRNG (seeded by the plan)"]
-STUB = ["fitness source (scripted by the plan; for optimize_cem a recording fitness function)", "the episode loop of train_cmaes (the driver replays its call order)"]
+STUB = ["fitness source (scripted by the plan; for optimize_cem a recording fitness function)", "the episode loop of train_cmaes in ask/tell plans (the driver replays its call order)", "environment of the train_cmaes plans (scripted episodes; dynamics ignore the action)"]
 ASSUMPTIONS = [
     "fitness is compared at the library's working precision (float32); scripted values are float32-exact, so this never merges distinct values",
     "internal CMA-ES fitness = -feedback when maximize=True (set_evaluation_feedback), +feedback otherwise; +inf/-inf are ordinary ordered values, NaN is never 'best' and a generation containing NaN is not mean-checked (counted unchecked)",
@@ -30,16 +32,16 @@ ASSUMPTIONS = [
     "CEM is a maximiser (docstring: 'Larger values are better'); mean update alpha*old + (1-alpha)*mean(elites), variance alpha*old + (1-alpha)*var(elites) (ddof 0)",
     "CEM candidates: tolerance 0 when the mean is inside the box; new mean may leave the box by 1 float32 ulp of the bound (convex update rounding); 2..4 ulp is reported under its own clause C16.g.ulp",
     "optimize_cem with n_elite > n_population must raise ValueError before evaluating any candidate",
-    "an exception raised inside /repo during a call whose precondition holds is a violation (C16.raise*); the zero-iteration return_history case has its own clause",
+    "an exception raised inside /repo during a call whose precondition holds is a violation (C16.raise*); optimize_cem(return_history=True) whose initial max variance is already <= epsilon (zero iterations) has its own clause C16.raise.empty_history (generated while optimsim.GENERATE_ZERO_ITERATION_HISTORY is True)",
 ]
 TIERS = {"quick": {"runs": 480}, "thorough": {"runs": 40000}}
 REQUIRED = ["weights_checked", "incumbent_checked", "incumbent_discriminating", "incumbent_tie", "mean_recomputed", "mean_discriminating", "step_size_checked",
             "cov_checked", "active_updates", "default_updates", "full_initial_covariance", "diagonal_initial_covariance", "roundtrip_checked",
             "roundtrip_wrapped_policy", "ties", "ties_at_mu_boundary", "nonfinite_feedback", "nan_feedback", "inf_feedback", "stop_rule_fired",
             "cem_candidates_checked", "cem_mean_recomputed", "cem_update_discriminating", "cem_mean_box_checked", "cem_history_checked", "mean_on_bound",
-            "ties_at_elite_boundary", "bad_elite_rejected", "cem_stopped_on_small_variance"]
+            "ties_at_elite_boundary", "bad_elite_rejected", "cem_stopped_on_small_variance", "train_runs", "train_final_mean_recomputed", "train_stopped"]
 REQUIRED_QUICK = REQUIRED
-SHRINK_LISTS = [["generations"], ["iters"], ["extra_configs"]]
+SHRINK_LISTS = [["generations"], ["iters"], ["extra_configs"], ["episodes"]]
 SHRINK_INTS = []
 
 
@@ -74,6 +76,14 @@ def shrink(plan):
         if plan.get("cov") is not None:
             p = json.loads(json.dumps(plan))
             p["cov"] = None
+            yield p
+
+
+    if plan.get("kind") == "cem" and len(plan.get("lb", [])) > 1:
+        for j in range(len(plan["lb"])):  # a single coordinate of the box
+            p = json.loads(json.dumps(plan))
+            for key in ("lb", "ub", "mean0", "var0"):
+                p[key] = [plan[key][j]]
             yield p
 
 
